@@ -26,7 +26,10 @@ func c12(cx *Ctx, r *ev.Report) {
 	// 1. termination of Step
 	d := noLoopsBelowStep(cx, r, "C12")
 	// Run returns once its program halts: the automaton of C08
-	if ri, err := analyseRun(cx); err == nil {
+	if sem := cx.runSem(); sem.err == nil {
+		r.Check(len(sem.violations) == 0 && sem.returns[retNil] > 0, "C12/terminates/func=(*CPU).Run",
+			"RUN-ITERATION: the loop leaves through 'return nil' on the first Step after which the halted indication is set", cx.P.Pos(run.Pos()), "summary-equality", sem.violations...)
+	} else if ri, err := analyseRun(cx); err == nil {
 		res := ri.explore()
 		sort.Strings(res.violations)
 		r.Check(len(res.violations) == 0 && res.accepted["halted->nil"] > 0, "C12/terminates/func=(*CPU).Run",
